@@ -7,7 +7,7 @@ from ..generic_instructions import Label, RegisterUseDef
 from ..isa import Isa
 from ..encoding import Instruction, Operand, Syntax, Constructor, Relocation
 from .. import effects
-from ...utils.bitfun import wrap_negative
+from ...utils.bitfun import wrap_negative, inrange
 from ..token import Token, u8, u16, u32, u64, bit_range, bit
 from .registers import rcx, al, cl, rax, rdx, rbp, eax, edx, ecx, cx, dx
 from .registers import rsp, ax, Register32
@@ -143,6 +143,8 @@ class Rel32JmpRelocation(Relocation):
 
     def calc(self, sym_value, reloc_value):
         offset = sym_value - reloc_value + self.addend
+        if not inrange(offset, 32):
+            raise ValueError(f"rel32: offset {offset} out of range")
         return offset
 
 
@@ -155,6 +157,9 @@ class Abs32Relocation(Relocation):
     name = "abs32"
 
     def calc(self, sym_value, reloc_value):
+        # A disp32 / imm32 is sign extended to 64 bits by the processor:
+        if not inrange(sym_value, 32):
+            raise ValueError(f"abs32: address {sym_value:#x} out of range")
         return sym_value
 
 
@@ -166,6 +171,8 @@ class Jmp8Relocation(Relocation):
 
     def calc(self, sym_value, reloc_value):
         offset = sym_value - (reloc_value + 1)
+        if not inrange(offset, 8):
+            raise ValueError(f"jmp8: offset {offset} out of range")
         return offset
 
 
